@@ -60,8 +60,16 @@ func rV2T(v value) rtype {
 
 // Given a reflect.Value, returns the underlying interpreter value.
 func rV2V(v value) value {
-	return v.(structure)[1]
+	x := v.(structure)[1]
+	if a, ok := x.(reflAddr); ok {
+		return *a.p
+	}
+	return x
 }
+
+// reflAddr is the payload of a reflect.Value obtained by Elem() of a pointer:
+// it keeps the address so that (reflect.Value).Set can store through it.
+type reflAddr struct{ p *value }
 
 // makeReflectType boxes up an rtype in a reflect.Type interface.
 func makeReflectType(rt rtype) value {
@@ -411,6 +419,9 @@ func ext۰reflect۰Value۰Elem(fr *frame, args []value) value {
 		if x != nil {
 			v = *x
 		}
+		if x != nil {
+			return makeReflectValue(rV2T(args[0]).t.Underlying().(*types.Pointer).Elem(), reflAddr{x})
+		}
 		return makeReflectValue(rV2T(args[0]).t.Underlying().(*types.Pointer).Elem(), v)
 	default:
 		panic(fmt.Sprintf("reflect.(Value).Elem(%T)", x))
@@ -490,8 +501,25 @@ func ext۰reflect۰Value۰IsValid(fr *frame, args []value) value {
 }
 
 func ext۰reflect۰Value۰Set(fr *frame, args []value) value {
-	// TODO(adonovan): implement.
-	return nil
+	// Signature: func (v reflect.Value, x reflect.Value)
+	// Only values obtained by Elem() of a pointer are addressable here.
+	if a, ok := args[0].(structure)[1].(reflAddr); ok {
+		T := rV2T(args[0]).t
+		src := rV2V(args[1])
+		store(T, a.p, load(T, &src))
+		return nil
+	}
+	panic(unsupported{"(reflect.Value).Set on a value that is not the Elem of a pointer"})
+}
+
+func ext۰reflect۰PointerTo(fr *frame, args []value) value {
+	// Signature: func (t reflect.Type) reflect.Type
+	return makeReflectType(rtype{types.NewPointer(args[0].(iface).v.(rtype).t)})
+}
+
+func ext۰reflect۰rtype۰AssignableTo(fr *frame, args []value) value {
+	// Signature: func (t reflect.rtype, u reflect.Type) bool
+	return types.AssignableTo(args[0].(rtype).t, args[1].(iface).v.(rtype).t)
 }
 
 func ext۰reflect۰valueInterface(fr *frame, args []value) value {
@@ -554,6 +582,7 @@ func initReflect(i *interpreter) {
 	}
 
 	i.rtypeMethods = methodSet{
+		"AssignableTo": newMethod(i.reflectPackage, rtypeType, "AssignableTo"),
 		"Bits":      newMethod(i.reflectPackage, rtypeType, "Bits"),
 		"Elem":      newMethod(i.reflectPackage, rtypeType, "Elem"),
 		"Field":     newMethod(i.reflectPackage, rtypeType, "Field"),
